@@ -388,6 +388,12 @@ def check_cli_pairs(case, ctx: Ctx):
                 "--chunksize", str(case["chunksize"]),
                 # a small fan-in of the merge step whenever the text is read in many chunks (two-pass merge)
                 *(["--max-merge", "2"] if case["chunksize"] <= 2 and case["perm"] % 2 else [])]
+        tdir = None
+        if case["perm"] % 3 == 1:
+            # scratch files go to a directory of the caller's choice and none of them outlives a successful run
+            tdir = os.path.join(d, "scratch")
+            os.makedirs(tdir)
+            args += ["--temp-dir", tdir]
         if case["zero_based"]:
             args.append("--zero-based")
         if case["copy"] in ("duplex", "square-duplex"):
@@ -405,6 +411,9 @@ def check_cli_pairs(case, ctx: Ctx):
             ctx.record(case, True, ["cli_pairs", "pos-eq-len"])
             return
         check(rc == 0 and exc is None, f"cooler cload pairs failed on valid input: exit {rc} {exc!r}")
+        if tdir is not None:
+            left = sorted(os.listdir(tdir))
+            check(not left, lambda: f"cooler cload pairs --temp-dir: scratch files outlive a successful run: {left}")
         clr, got = _read_cooler(out)
         counts: dict = {}
         for v in exp.values():
